@@ -499,7 +499,18 @@ func (r *Reader) PageCount() (int, error) {
 	if err := r.ensurePageTree(); err != nil {
 		return 0, err
 	}
-	return r.pageTree.Count()
+	if _, err := r.pageTree.Count(); err != nil {
+		return 0, err
+	}
+	// /Count is just a number in the file; the pages that can actually be
+	// delivered are the leaves of the page tree. Report those, so that callers
+	// sizing loops and slices by the page count are not at the mercy of a
+	// damaged /Count.
+	pageList, err := r.pageTree.Pages()
+	if err != nil {
+		return 0, err
+	}
+	return len(pageList), nil
 }
 
 // GetPage returns the page at the given index (0-based)
